@@ -113,7 +113,8 @@ TObs ==
   /\ LET o == Rec[l].obs IN
        IF Full /\ Outcome(ps) = "ok"
        THEN LET bad == Failing(ps, o) IN Verdict(bad = {}, <<case, "observation", bad, IF "panics" \in bad THEN o.panics ELSE <<>>>>)
-       ELSE LET bad == UsableFailing(o) IN Verdict(bad = {}, <<case, "usable", bad, o.panics>>)
+       ELSE LET bad == UsableFailing(o) \cup (IF Full /\ ps.st = "done" /\ o.panics = <<>> THEN WeakFailing(ps, o) ELSE {})
+            IN Verdict(bad = {}, <<case, "usable", bad, o.panics>>)
   \* C07: an equivalent encoding yields the same observation as the base encoding
   /\ Verdict(base.var => Rec[l].obs = base.obs, <<case, "variant_observation_differs",
                IF base.var /\ base.obs # <<>> THEN {f \in DOMAIN base.obs : f \in DOMAIN Rec[l].obs /\ Rec[l].obs[f] # base.obs[f]} ELSE {}>>)
